@@ -43,6 +43,7 @@ pub fn base_cfg(prop: &'static str, label: String, cb: usize, hb: usize, events:
         prefilled: vec![],
         deprecated_ctor: false,
         refine: false,
+        refine_depth: 1,
         digest: None,
     }
 }
@@ -206,9 +207,15 @@ pub fn c10(rep: &mut Report, tier: &str, seed: u64) {
     }
     cfgs.push((4, 6));
     cfgs.push((4, 8));
+    // a line that fits the history buffer exactly while two entries are already stored (cb = hb - 1)
+    cfgs.push((4, 5));
+    cfgs.push((5, 6));
     for (cb, hb) in cfgs {
         let mut cfg = base_cfg("C10", format!("history cb={} hb={} raw 7ev", cb, hb), cb, hb, alphabet.clone(), mon.clone());
         cfg.poison = true;
+        // behaviour-refined key in every quick configuration: a cache added to the history shows up
+        cfg.refine = true;
+        cfg.refine_depth = if cb * hb <= 15 { 2 } else { 1 };
         let name = cfg.label.clone();
         run_raw(rep, cfg, &caps, seed);
         if cb >= 3 && hb >= 6 {
@@ -217,6 +224,15 @@ pub fn c10(rep: &mut Report, tier: &str, seed: u64) {
             rep.required.push((name.clone(), "history_recall_multibyte".into()));
             rep.required.push((name, "history_not_recorded".into()));
         }
+    }
+    // two different one-byte characters: several distinct short entries in the smallest buffers
+    let ab = vec![ch('a'), ch('b'), k(Key::Bs), k(Key::Lf), k(Key::Up), k(Key::Down)];
+    for (cb, hb) in [(2usize, 3usize), (2, 4), (3, 4), (3, 5), (3, 6), (4, 5)] {
+        let mut cfg = base_cfg("C10", format!("history cb={} hb={} raw a/b", cb, hb), cb, hb, ab.clone(), mon.clone());
+        cfg.poison = true;
+        cfg.refine = true;
+        cfg.refine_depth = 2;
+        run_raw(rep, cfg, &caps, seed);
     }
     if tier != "quick" {
         let alphabet = vec![ch('a'), ch('é'), ch(' '), k(Key::Bs), k(Key::Left), k(Key::Lf), k(Key::Up), k(Key::Down)];
